@@ -367,6 +367,7 @@ fn congress_main(plan: &Value, out: Arc<Mutex<(Vec<String>, Option<Violation>, B
     let target = ju(plan, "target", 100) as u32;
     let interval_ns = ju(plan, "interval_ns", 1_000_000_000);
     let rng = ScriptRng::new(); // word 0 => draw 0.0 => every entry is emitted, its rate observed
+    let rng_word = rng.word.clone();
     let rec = RecFormat::default();
     let mut c = CongressSampleBuilder::default()
         .interval(Duration::from_nanos(interval_ns))
@@ -379,21 +380,63 @@ fn congress_main(plan: &Value, out: Arc<Mutex<(Vec<String>, Option<Violation>, B
     // our own bookkeeping of interval totals as the sampler sees them
     let mut prev_total_over_target: Option<bool> = None;
     let mut last_running_total = 0u32;
+    // Two checks that do not depend on how the sampler lays out its intervals (lazily restarted, as it does, or
+    // on a fixed grid): (a) any span longer than the interval contains a boundary, so an entry that arrives more
+    // than one interval after the last observed roll-over must roll over; (b) if no interval-long span of the
+    // whole history so far held more than the target, no previous interval did, and every rate is 1.
+    // Each call's clock reads lie between the simulator clock before and after the call.
+    let mut last_rollover_after: u64 = detsim::clock_ns();
+    let mut times: std::collections::VecDeque<(u64, u64)> = Default::default(); // (before, after) of the calls of the last interval
+    let mut max_span_count: usize = 0;
     'outer: for step in ja(plan, "intervals") {
         // one "interval" of the plan: a list of (group, count) bursts, then a clock advance
+        let word = ju(step, "draw_word", 0);
+        rng_word.store(word, Ordering::SeqCst);
+        // rand's f32 from the high 24 bits of next_u32(), which is the high half of the word
+        let draw = (((word >> 32) as u32) >> 8) as f32 * (1.0 / (1u32 << 24) as f32);
         for burst in ja(step, "bursts") {
             let g = js(burst, "g", "a").to_string();
             for _ in 0..ju(burst, "n", 1) {
                 id += 1;
                 detsim::advance_clock(ju(step, "per_entry_ns", 0));
                 let before_total = c.__verif_groups().1;
+                let t_before = detsim::clock_ns();
                 let res = c.format(&SEntry { id, group: g.clone() }, &mut io::sink());
+                let t_after = detsim::clock_ns();
                 if res.is_err() {
                     out.lock().unwrap().1 = Some(Violation::new("sampler_error", "CongressSample::format returned an error"));
                     break 'outer;
                 }
                 let (groups, running) = c.__verif_groups();
                 // did the interval roll over inside this call? (running total restarted)
+                let rolled = running <= before_total;
+                if !rolled && before_total >= 1 && t_before > last_rollover_after.saturating_add(interval_ns) {
+                    out.lock().unwrap().1 = Some(Violation::new(
+                        "interval_never_ends",
+                        format!("entry {id} arrived {} ns after the last roll-over (interval {interval_ns} ns) and the running interval just went on ({before_total} -> {running} entries)", t_before - last_rollover_after),
+                    ));
+                    break 'outer;
+                }
+                // (a roll-over that closes an empty interval - the sampler's very first call does one - cannot be
+                // told from no roll-over by the totals: count it as one, which only makes the check more lenient)
+                if rolled || before_total == 0 {
+                    last_rollover_after = t_after;
+                }
+                times.push_back((t_before, t_after));
+                while times.front().map(|f| t_before.saturating_sub(f.1) > interval_ns).unwrap_or(false) {
+                    times.pop_front();
+                }
+                max_span_count = max_span_count.max(times.len());
+                if max_span_count as u64 <= target as u64 {
+                    if let Some((name, _, rate, _)) = groups.iter().find(|g| g.2 != 1.0) {
+                        out.lock().unwrap().1 = Some(Violation::new(
+                            "sampled_although_no_interval_exceeded_target",
+                            format!("no interval-long span of the history so far held more than {max_span_count} entries (target {target}), yet group {name} is sampled at {rate:e}"),
+                        ));
+                        break 'outer;
+                    }
+                    *probes.entry("history_never_above_target".into()).or_insert(0) += 1;
+                }
                 if running <= before_total {
                     prev_total_over_target = Some(before_total > target);
                     *probes.entry("interval_rollovers".into()).or_insert(0) += 1;
@@ -408,9 +451,24 @@ fn congress_main(plan: &Value, out: Arc<Mutex<(Vec<String>, Option<Violation>, B
                         out.lock().unwrap().1 = Some(Violation::new("rate_not_passed_on", format!("group {g}: current rate {:e}, the format received {:e}", my.2, prate)));
                         break 'outer;
                     }
-                    if pid != id {
-                        out.lock().unwrap().1 = Some(Violation::new("entry_not_emitted_at_draw_zero", format!("entry {id} of group {g} was not emitted although the draw is 0")));
+                }
+                // emitted exactly when the draw is at most the group's rate (always, when the rate is 1)
+                let passed = rec.log.lock().unwrap().last().cloned();
+                if let Some(my) = my {
+                    let emitted = passed.map(|(pid, _)| pid == id).unwrap_or(false);
+                    let expect = my.2 == 1.0 || draw <= my.2;
+                    if emitted != expect {
+                        out.lock().unwrap().1 = Some(Violation::new(
+                            "emit_decision_wrong",
+                            format!("entry {id} of group {g}: draw {draw:e}, rate {:e}: emitted = {emitted}, expected {expect}", my.2),
+                        ));
                         break 'outer;
+                    }
+                    if !emitted {
+                        *probes.entry("entry_sampled_away".into()).or_insert(0) += 1;
+                        if my.2 >= 0.999 {
+                            *probes.entry("sampled_away_at_rate_just_below_1".into()).or_insert(0) += 1;
+                        }
                     }
                 }
                 // invariants over all groups, after every call
@@ -479,6 +537,17 @@ impl Scenario for Congress {
         1
     }
     fn generate(&self, rng: &mut Rng, _tier: Tier) -> Value {
+        if rng.chance(1.0 / 1000.0) {
+            // a rate a hair below 1: one interval of target + 1 entries, then a few entries whose draw is the
+            // largest possible one (0.99999994 > rate): none of them may be emitted
+            let target = 400_000u64;
+            let interval = 1_000_000_000u64;
+            let sched = json!({"seed": rng.next_u64() >> 1, "strategy": {"kind":"random","p":0.1}, "now_cost_ns": 0, "max_steps": 3_000_000, "jump_prob": 0.0, "jump_max_ns": 0});
+            return json!({"sched": sched, "target": target, "interval_ns": interval, "near_one": true, "intervals": [
+                {"bursts": [{"g": "g0", "n": target + 1 + rng.below(3)}], "per_entry_ns": 0, "then_ns": interval + 1, "draw_word": 0},
+                {"bursts": [{"g": "g0", "n": 3 + rng.below(5)}], "per_entry_ns": 1, "then_ns": 0, "draw_word": u64::MAX},
+            ]});
+        }
         let target = *rng.pick(&[1u64, 5, 20, 100]);
         let interval = *rng.pick(&[1_000_000u64, 1_000_000_000, 15_000_000_000]);
         let ngroups = 1 + rng.below(5);
@@ -511,7 +580,13 @@ impl Scenario for Congress {
                 2 => interval + 1,                    // exactly on / just past the boundary
                 _ => interval + rng.below(interval / 2 + 1),
             };
-            intervals.push(json!({"bursts": bursts, "per_entry_ns": rng.below(interval / 500 + 1), "then_ns": then}));
+            // the scripted random word of this stretch: 0 (every entry is emitted), the largest draw, or anything
+            let draw_word = match rng.below(4) {
+                0 => u64::MAX,
+                1 => rng.next_u64(),
+                _ => 0,
+            };
+            intervals.push(json!({"bursts": bursts, "per_entry_ns": rng.below(interval / 500 + 1), "then_ns": then, "draw_word": draw_word}));
         }
         let sched = json!({"seed": rng.next_u64() >> 1, "strategy": {"kind":"random","p":0.1}, "now_cost_ns": *rng.pick(&[0u64, 100, 10_000]), "max_steps": 400_000,
                            "jump_prob": if rng.chance(0.3) { 0.0005 } else { 0.0 }, "jump_max_ns": interval * 40});
@@ -549,12 +624,12 @@ impl Scenario for Congress {
         r
     }
     fn probes(&self) -> Vec<&'static str> {
-        vec!["interval_rollovers", "below_target_interval", "above_target_interval", "intervals_skipped"]
+        vec!["interval_rollovers", "below_target_interval", "above_target_interval", "intervals_skipped", "history_never_above_target", "entry_sampled_away", "sampled_away_at_rate_just_below_1"]
     }
     fn components(&self) -> Value {
         json!({"real": ["CongressSample / CongressSampleBuilder / GroupState / ExpMovingAverage"], "simulated_seams": ["Instant (simulated clock: per-entry jitter, skipped intervals, injected jumps)", "RngCore (scripted to 0: every entry emitted, its rate observed)", "cfg accessor for per-group (average, rate)"], "harness": ["recording SampledFormat", "interval volume histories"], "stub": []})
     }
     fn rule(&self) -> &'static str {
-        "each run: a history of 3-24 intervals of per-group volumes (1-5 groups; silent intervals, x20 bursts, one-entry groups, new groups, volume changes), clock advanced per entry with jitter, interval boundaries hit exactly / skipped for 10-30 intervals, optional injected clock jumps; after every call: rates in (0,1], all 1 when the previous interval was within target, else sum(average x rate) <= target(1+eps) and rarer groups never sampled lower; rate passed on = group's current rate. non-trivial = >= 2 intervals; distinct = distinct plans"
+        "each run: a history of 3-24 intervals of per-group volumes (1-5 groups; silent intervals, x20 bursts, one-entry groups, new groups, volume changes), clock advanced per entry with jitter, interval boundaries hit exactly / skipped for 10-30 intervals, optional injected clock jumps; after every call: rates in (0,1], all 1 when the previous interval was within target, else sum(average x rate) <= target(1+eps) and rarer groups never sampled lower; rate passed on = group's current rate; independent of the interval layout: an entry more than one interval after the last roll-over rolls over, and all rates are 1 while no interval-long span of the history held more than the target. non-trivial = >= 2 intervals; distinct = distinct plans"
     }
 }
